@@ -166,18 +166,54 @@ def main():
              "has_new_reaction": "new_reaction" in res})
         if "new_reaction" in res:
             solved_entries.append(res)
-    # parallel_impute must agree with single_impute entry by entry
-    par_in = [{"Diff_formula": dict(v), "Unbalance": "Products" if k % 2 else "Reactants", "reactants": "CCO.CC",
-               "products": "CCOCC", "id": str(k)} for k, v in enumerate(sample[:60])]
-    imp = SyntheticRuleImputer(rule_dict=copy.deepcopy(dbs["rules_manager"]), select="all", ranking="ion_priority")
-    par_out = imp.parallel_impute(copy.deepcopy(par_in), n_jobs=2)
-    for k, (e_in, e_out) in enumerate(zip(par_in, par_out)):
-        one = SyntheticRuleImputer.single_impute(copy.deepcopy(e_in), copy.deepcopy(dbs["rules_manager"]), select="all",
-                                                 ranking="ion_priority")
-        same = (e_out.get("new_reaction"), e_out["reactants"], e_out["products"], e_out.get("id")) == \
-               (one.get("new_reaction"), one["reactants"], one["products"], one.get("id"))
-        add({"ev": "parallel", "entry": k, "data": e_in["Diff_formula"], "same": same,
-             "parallel": str(e_out.get("new_reaction")), "single": str(one.get("new_reaction"))})
+    # parallel_impute: each row of a batch gets its own completion. The batch holds near-twins (same elements,
+    # neighbouring charges / counts), is judged row by row like single_impute, and must agree with it.
+    def imp_event(name, entry, res, kind):
+        side = "products" if res["products"] != entry["products"] else ("reactants" if res["reactants"] != entry["reactants"] else "none")
+        grown = res[side] if side != "none" else ""
+        base = entry[side] if side != "none" else ""
+        appended = grown[len(base) + 1:].split(".") if side != "none" and grown.startswith(base + ".") else []
+        other = "reactants" if side == "products" else "products"
+        add({"ev": "impute", "db": name, "data": entry["Diff_formula"], "unbalance": entry["Unbalance"], "side": side,
+             "appended": appended, "other_unchanged": side == "none" or res[other] == entry[other],
+             "prefix_unchanged": side == "none" or grown.startswith(base + "."),
+             "has_new_reaction": "new_reaction" in res, "via": kind})
+
+    for name in dbs:
+        seeds_ = [dict(rec["Composition"]) for rec in dbs[name]][:40] + rng.sample(uniq, 40 if tier == "quick" else 400)
+        vecs = []
+        for v in seeds_:
+            v = {el: n for el, n in v.items() if n != 0}
+            vecs.append(v)
+            q = v.get("Q", 0)
+            for dq in (-2, -1, 1, 2):
+                w = {el: n for el, n in v.items() if el != "Q"}
+                if q + dq != 0:
+                    w["Q"] = q + dq
+                vecs.append(w)
+            els = [el for el in v if el != "Q"]
+            if els:
+                w = dict(v)
+                w[rng.choice(els)] += 1
+                vecs.append(w)
+        rng.shuffle(vecs)
+        par_in = [{"Diff_formula": dict(v), "Unbalance": "Products" if k % 2 else "Reactants", "reactants": "CCO.CC",
+                   "products": "CCOCC", "id": str(k)} for k, v in enumerate(vecs)
+                  if sum(x for el, x in v.items() if el != "Q") <= 12]
+        imp = SyntheticRuleImputer(rule_dict=copy.deepcopy(dbs[name]), select="all", ranking="ion_priority")
+        par_out = imp.parallel_impute(copy.deepcopy(par_in), n_jobs=2)
+        if len(par_out) != len(par_in):
+            add({"ev": "parallel", "entry": -1, "data": {}, "same": False, "parallel": "%d rows" % len(par_out),
+                 "single": "%d rows" % len(par_in)})
+            continue
+        for k, (e_in, e_out) in enumerate(zip(par_in, par_out)):
+            one = SyntheticRuleImputer.single_impute(copy.deepcopy(e_in), copy.deepcopy(dbs[name]), select="all",
+                                                     ranking="ion_priority")
+            same = (e_out.get("new_reaction"), e_out["reactants"], e_out["products"], e_out.get("id")) == \
+                   (one.get("new_reaction"), one["reactants"], one["products"], one.get("id"))
+            imp_event(name, e_in, e_out, "parallel")
+            add({"ev": "parallel", "entry": k, "data": e_in["Diff_formula"], "same": same,
+                 "parallel": str(e_out.get("new_reaction")), "single": str(one.get("new_reaction"))})
     # RuleConstraint.fit on the solved entries (+ handcrafted product sides with halogens)
     extra = []
     for prod in ("CCOCC.ClCl", "CCOCC.BrBr", "CCOCC.ClBr", "CCOCC.Cl", "CCOCC.[Cl-]", "CCOCC.II", "CCOCC.FF",
